@@ -743,6 +743,12 @@ def fs_edges(chk, sm, fail, quick):
         ('kotlin module name and prefix odd', T, ['--lang', 'kotlin', '-j', '', '-m', '', '-k', '__', '-o', '{d}/out.kt', '{d}/tree'], 'ok'),
         ('scala package with dots', T, ['--lang', 'scala', '--scala-package', '..', '-o', '{d}/out.scala', '{d}/tree'], None),
         ('go package empty string', T, ['--lang', 'go', '--go-package', '', '-o', '{d}/out.go', '{d}/tree'], 'diag'),
+        # the same source root more than once, roots inside one another (seeded C07_f: a filter of covered roots emptied the list)
+        ('the same directory twice', T, ['--lang', 'typescript', '-o', '{d}/out.ts', '{d}/tree', '{d}/tree'], 'ok'),
+        ('the same directory twice, multi-file', T, ['--lang', 'typescript', '-d', '{d}/out', '{d}/tree', '{d}/tree'], 'ok'),
+        ('the same directory three times, spelled differently', T, ['--lang', 'typescript', '-o', '{d}/out.ts', '{d}/tree', '{d}/tree/', '{d}/tree/.'], 'ok'),
+        ('a directory and its sub-directory', T, ['--lang', 'typescript', '-o', '{d}/out.ts', '{d}/tree', '{d}/tree/c'], 'ok'),
+        ('a sub-directory and then its parent, multi-file', T, ['--lang', 'kotlin', '--java-package', 'p', '-d', '{d}/out', '{d}/tree/c/src', '{d}/tree'], 'ok'),
     ]
     # source-tree / output failures whose diagnostic must NAME the offending path (the property's second half)
     MUST_NAME = {'dangling symlink': 'l.rs', 'dangling symlink, --follow-links': 'l.rs', 'symlink loop, --follow-links': 'loop',
